@@ -333,7 +333,7 @@ def value_chunk(args):
                 bad = None
                 if mode in ('c01', 'c09'):
                     bad = oracle_c01(sorted_copy(plain) if st[5] else plain, text)
-                    if bad and 'subclasses.' in text:       # instances of the generated subclasses: evaluate with their module in scope
+                    if bad and ('subclasses.' in text or 'Geometry.' in text):       # instances of the generated subclasses: evaluate with their module in scope
                         bad = oracle_eval_equal(plain, text)
                     if bad:
                         bad = {'kind': 'does-not-evaluate-back', 'why': bad}
